@@ -6,4 +6,4 @@ CONSTANTS
   Known <- AllKnown
   Msgs <- AllMsgs
   MaxMsgs = 2
-INVARIANTS Emit
+INVARIANTS Emit TypeOK OnlyVerifiedShares OnlyKnownSenders OwnShareKept AtMostThreshold SubmitsGroupSignature NothingBeforeThreshold
